@@ -69,7 +69,12 @@ class TVF(PVF):
         return st
 
     def enter(self, mid, loc):
-        self._st()["log"].append(mid)
+        st = self._st()
+        st["log"].append(mid)
+        # what the method received for its keyword-only parameters is part of what the call "returns"
+        kws = [(k, repr(v)[:24]) for k, v in sorted(loc.items()) if k.startswith("k") and k[1:].isdigit()]
+        if kws:
+            st.setdefault("recv", []).append((mid, tuple(kws)))
 
     def rec_ok(self):
         st = self._st()
@@ -86,7 +91,7 @@ class TVF(PVF):
 
     def reset(self, alt):
         st = self._st()
-        st.update(log=[], nrec=0, alt=alt)
+        st.update(log=[], nrec=0, alt=alt, recv=[])
 
 
 WHERE = {}
@@ -102,6 +107,8 @@ def teardown(res):
 def gen_case(rng, params, idx):
     scn = SCENARIOS[idx % len(SCENARIOS)]
     strat = STRATEGIES[(idx // len(SCENARIOS)) % len(STRATEGIES)]
+    if scn == "kwonly" and strat in ("random", "raw"):
+        strat = "sweep" if strat == "random" else "double"     # the entry point's per-call scratch state is a matter of single lines
     if scn == "after_failed_build" and strat == "raw":
         strat = "sweep"     # a thread left waiting for ever is decided logically by the scheduler-aware lock only
     hier = gen.gen_hierarchy(rng, rng.randint(2, 4), attrs=False)
@@ -211,7 +218,9 @@ def _body(prog, call):
 
     def run():
         prog.vf.reset(alt)
-        return prog.fn(*pos, **kw)
+        r = prog.fn(*pos, **kw)
+        recv = prog.vf._st().get("recv")
+        return (r, tuple(recv)) if recv else r
     return run
 
 
